@@ -57,7 +57,7 @@ Definition is_quiet (act : activity) : Prop := a_init act = false /\ forall i, a
 
 (** * Concrete statements used by the Examples and the refutation witness *)
 Definition cfg_split (preads : bool) : settings :=
-  {| s_parser := true; s_splitting := true; s_primary_reads := preads; s_default_role := None |}.
+  {| s_parser := true; s_splitting := true; s_primary_reads := preads; s_default_role := None; s_plugins := false |}.
 Definition st_replica : rstate := {| active_role := Some Replica; o_parser := None; o_preads := None |}.
 
 Definition sel : query := MkQuery [] [] (BSelect false) false.                 (* SELECT 1 *)
@@ -72,6 +72,10 @@ Definition union_into : query := MkQuery [] [] (BSetOp (BSelect true) (BSelect f
 Definition with_insert : query := MkQuery [sel] [] BInsert false.              (* WITH x AS (SELECT 1) INSERT INTO t SELECT * FROM x *)
 Definition read_cte_union : query :=                                           (* WITH x AS (SELECT 1) (SELECT ..) UNION VALUES (1) *)
   MkQuery [sel] [sel] (BSetOp (BNested sel) BValues) false.
+
+(* the same pool with a [plugins] section: sessions stay parsed after SET SERVER ROLE *)
+Definition cfg_plug (preads : bool) : settings :=
+  {| s_parser := true; s_splitting := true; s_primary_reads := preads; s_default_role := None; s_plugins := true |}.
 
 Definition role_after (preads : bool) (ss : list stmt) : option role :=
   active_role (fst (infer (cfg_split preads) st_replica ss)).
